@@ -13,6 +13,7 @@ import (
 	"net"
 	"os"
 	"os/exec"
+	"strconv"
 	"strings"
 	"sync"
 	"syscall"
@@ -79,6 +80,182 @@ func dispatcherMain() {
 			return
 		}
 	}
+}
+
+const kefdClientMode = "kefdclient"
+
+func countFDs() int {
+	ents, err := os.ReadDir("/proc/self/fd")
+	if err != nil {
+		return -1
+	}
+	return len(ents)
+}
+
+// kefdClientMain is a client process with few file descriptors: n key exchanges that the peer
+// refuses after the handshake, then a measurement that must succeed.  It reports the number of
+// open descriptors before and after the refused exchanges.
+func kefdClientMain() {
+	ip := net.ParseIP(os.Getenv("C08_PEER_IP")).To4()
+	kePort, _ := strconv.Atoi(os.Getenv("C08_KE_PORT"))
+	n, _ := strconv.Atoi(os.Getenv("C08_N"))
+	timebase.RegisterClock(sysClock{})
+	quiet := slog.New(slog.DiscardHandler)
+	c := &client.SCIONClient{Log: quiet}
+	c.Auth.NTSEnabled = true
+	f := &c.Auth.NTSKEFetcher
+	f.Log = quiet
+	ia := addr.IA(localIA)
+	if os.Getenv("C08_QUIC") == "1" {
+		f.TLSConfig = tls.Config{InsecureSkipVerify: true, ServerName: "c08", MinVersion: tls.VersionTLS13}
+		f.QUIC.Enabled = true
+		f.QUIC.LocalAddr = udp.UDPAddr{IA: ia, Host: &net.UDPAddr{IP: ip}}
+		f.QUIC.RemoteAddr = udp.UDPAddr{IA: ia, Host: &net.UDPAddr{IP: ip, Port: kePort}}
+	} else {
+		f.TLSConfig = tls.Config{InsecureSkipVerify: true, ServerName: ip.String(), MinVersion: tls.VersionTLS13}
+		f.Port = strconv.Itoa(kePort)
+	}
+	measure := func(limit time.Duration) error {
+		ctx, cancel := context.WithTimeout(context.Background(), limit)
+		defer cancel()
+		local := udp.UDPAddr{IA: ia, Host: &net.UDPAddr{IP: ip}}
+		remote := udp.UDPAddr{IA: ia, Host: &net.UDPAddr{IP: ip, Port: 9}}
+		ps := []snet.Path{spath.Path{Src: ia, Dst: ia, DataplanePath: spath.Empty{}, NextHop: &net.UDPAddr{IP: ip, Port: 9}}}
+		_, _, err := client.MeasureClockOffsetSCION(ctx, quiet, []*client.SCIONClient{c}, local, remote, ps)
+		return err
+	}
+	lim := syscall.Rlimit{Cur: 64, Max: 64}
+	syscall.Setrlimit(syscall.RLIMIT_NOFILE, &lim)
+	before := countFDs()
+	var last error
+	for i := 0; i < n; i++ {
+		last = measure(3 * time.Second)
+	}
+	after := countFDs()
+	ok := false
+	var err error
+	for try := 0; try < 3 && !ok; try++ {
+		err = measure(5 * time.Second)
+		ok = err == nil
+	}
+	fmt.Printf("RESULT %d %d %v\n", before, after, ok)
+	fmt.Fprintf(os.Stderr, "last refused: %v; final: %v\n", last, err)
+}
+
+// cli.kefdleak: args = transport (1 QUIC, 0 TLS), how the peer refuses (5 error record, 6 unknown
+// critical record, 7 truncated stream), number of refused exchanges.  Observed: the measurement
+// after the refused exchanges succeeds; the number of open descriptors of the client process grew
+// by at most 8.
+func runKEFDLeak(e *netEnv, a []val) string {
+	nts := newNTSPeer(e)
+	defer nts.ln.Close()
+	defer nts.ntp.conn.Close()
+	release := make(chan struct{})
+	defer close(release)
+	sconn, err := net.ListenUDP("udp4", &net.UDPAddr{IP: e.peerIP})
+	if err != nil {
+		panic(err)
+	}
+	defer sconn.Close()
+	port := sconn.LocalAddr().(*net.UDPAddr).Port
+	nts.port = port
+	n := int(a[2].z)
+	var kePort int
+	if a[0].z == 1 {
+		kp := newQUICKEPeer(e, nts, port, release)
+		defer kp.ln.Close()
+		kp.refuse, kp.refuseAs = n, int(a[1].z)
+		kePort = kp.port
+	} else {
+		nts.mu.Lock()
+		nts.refuse, nts.refuseAs = n, int(a[1].z)
+		nts.keLens = []int64{124, 124, 124, 124, 124, 124, 124, 124}
+		nts.mu.Unlock()
+		_, ps, _ := net.SplitHostPort(nts.ln.Addr().String())
+		kePort, _ = strconv.Atoi(ps)
+	}
+	// the scripted SCION/NTS peer answers every request properly
+	stop := make(chan struct{})
+	go func() {
+		buf := make([]byte, 65536)
+		for {
+			select {
+			case <-stop:
+				return
+			default:
+			}
+			sconn.SetReadDeadline(time.Now().Add(200 * time.Millisecond))
+			m, src, err := sconn.ReadFromUDP(buf)
+			if err != nil {
+				continue
+			}
+			pl, srcPort, ok := scionPayload(buf[:m])
+			if !ok || len(pl) < 48 {
+				continue
+			}
+			h := &scionSpec{dstIA: localIA, srcIA: localIA, dstRaw: []byte(e.peerIP.To4()), srcRaw: []byte(e.peerIP.To4()),
+				udpSrc: uint16(port), udpDst: srcPort}
+			if d, err := buildSCION(h, nts.ntsReply(pl, 0, []int64{124})); err == nil {
+				sconn.WriteToUDP(d, src)
+			}
+		}
+	}()
+	defer close(stop)
+	exe, _ := os.Executable()
+	cmd := exec.Command(exe)
+	for _, kv := range os.Environ() {
+		if !strings.HasPrefix(kv, childEnv+"=") {
+			cmd.Env = append(cmd.Env, kv)
+		}
+	}
+	cmd.Env = append(cmd.Env, childEnv+"="+kefdClientMode, "C08_PEER_IP="+e.peerIP.String(),
+		fmt.Sprintf("C08_KE_PORT=%d", kePort), fmt.Sprintf("C08_N=%d", n), fmt.Sprintf("C08_QUIC=%d", a[0].z))
+	var errb strings.Builder
+	cmd.Stderr = &errb
+	outp, err := cmd.StdoutPipe()
+	if err != nil {
+		panic(err)
+	}
+	if err := cmd.Start(); err != nil {
+		note("cli.kefdleak: " + err.Error())
+		return "0 []"
+	}
+	res := make(chan string, 1)
+	go func() {
+		rd := bufio.NewReader(outp)
+		for {
+			line, err := rd.ReadString('\n')
+			if strings.HasPrefix(line, "RESULT ") {
+				res <- strings.TrimSpace(line)
+				return
+			}
+			if err != nil {
+				res <- ""
+				return
+			}
+		}
+	}()
+	var line string
+	select {
+	case line = <-res:
+	case <-time.After(240 * time.Second):
+		cmd.Process.Kill()
+	}
+	werr := cmd.Wait()
+	var before, after int
+	var okS string
+	fmt.Sscanf(line, "RESULT %d %d %s", &before, &after, &okS)
+	tail := errb.String()
+	if len(tail) > 300 {
+		tail = tail[len(tail)-300:]
+	}
+	if debugOn || line == "" || okS != "true" || after < 0 || after-before > 8 {
+		note(fmt.Sprintf("cli.kefdleak quic=%d kind=%d n=%d: %q (descriptors %d -> %d) exit=%v: %s", a[0].z, a[1].z, n, line, before, after, werr, tail))
+	}
+	if line == "" {
+		return "0 []"
+	}
+	return lib.V("1", lib.L(lib.Bool(okS == "true"), lib.Bool(after >= 0 && after-before <= 8)))
 }
 
 const kefdMode = "kefd"
@@ -795,6 +972,12 @@ func (g *gen) genThird() {
 	for i := 0; i < len(dd); i += 5 {
 		g.add("srv.dispatcher", "nt", bl(dd[i:min(i+5, len(dd))]...))
 	}
+	// key exchanges that the peer refuses after the handshake, in a client process with 64 descriptors
+	for _, tr := range []int{1, 0} {
+		for _, kind := range []int{5, 6, 7} {
+			g.add("cli.kefdleak", "nt", lib.V(lib.I(int64(tr)), lib.I(int64(kind)), "60"))
+		}
+	}
 	// more idle TCP connections on the NTS-KE port than the server process has descriptors
 	g.add("srv.kefd", "nt", lib.V("200", lib.B(nil)))
 	g.add("srv.kefd", "nt", lib.V("120", lib.B([]byte{0x16, 3, 1})))
@@ -846,6 +1029,8 @@ type quicKEPeer struct {
 	ln      *scion.QUICListener
 	port    int
 	mu      sync.Mutex
+	refuse   int // exchanges still to be refused
+	refuseAs int
 	stall   int // 0 answer properly, 1 nothing, 2 half a record, 3 a byte per second of a record that never ends
 	ntpPort int
 	nts     *ntsPeer
@@ -884,7 +1069,17 @@ func newQUICKEPeer(e *netEnv, nts *ntsPeer, ntpPort int, release chan struct{}) 
 				nts.mu.Unlock()
 				p.mu.Lock()
 				stall := p.stall
+				refuseAs := 0
+				if p.refuse > 0 {
+					p.refuse--
+					refuseAs = p.refuseAs
+				}
 				p.mu.Unlock()
+				if refuseAs != 0 {
+					s.Write(refusal(refuseAs))
+					s.Close()
+					return
+				}
 				switch stall {
 				case 0:
 					var msg ntske.ExchangeMsg
